@@ -158,6 +158,8 @@ COMMON_TRUSTED = [
 
 from props_table import PROPS  # noqa: E402
 
+RT_ENTRIES = {'c08rt', 'c11rt'}     # entries whose input is a measured wall-clock trace
+
 
 # ----------------------------------------------------------------------------------------------
 # proof obligations
@@ -501,6 +503,38 @@ def run_check(pid, tier, seed):
                 mm['impl_rerun_slow'] = again
                 keep.append(mm)
         corr['mismatches'] = keep
+    # measured real-time traces: a disagreement of the timing monitor is only kept when the same scenario fails again
+    # in two fresh measurements (a defect in the timeout logic reproduces, a scheduling hiccup of the machine does not)
+    rt = [mm for mm in corr['mismatches'] if mm.get('entry') in RT_ENTRIES and mm.get('comment')]
+    if rt and b.go_ok and b.model_ok:
+        cls = lambda mm: mm.get('comment', '').split('|')[0].strip()
+        persistent = set(cls(mm) for mm in rt)
+        for k in (1, 2):
+            again = set()
+            for e in sorted(set(mm['entry'] for mm in rt)):
+                d2 = os.path.join(run_dir, 'rt-rerun-%d' % k)
+                shutil.rmtree(d2, ignore_errors=True)
+                os.makedirs(d2, exist_ok=True)
+                cmd = [os.path.join(BUILD, 'harness'), e, '-seed', str(seed + 100 + k), '-n', '1', '-out', d2]
+                if tier == 'thorough':
+                    cmd.append('-thorough')
+                sh(cmd, timeout=900, env=GOENV)
+                cin, mout = os.path.join(d2, e + '.cases.in'), os.path.join(d2, e + '.model.out')
+                if not os.path.exists(cin):
+                    continue
+                ok_, _ = run_model(e, cin, mout)
+                if not ok_:
+                    continue
+                ins, impls, mods = read_lines(cin), read_lines(os.path.join(d2, e + '.impl.out')), read_lines(mout)
+                for ci, im, mo in zip(ins, impls, mods):
+                    if im.strip() != mo.strip() and '#' in ci:
+                        again.add(ci.split('#', 1)[1].split('|')[0].strip())
+            persistent &= again
+            if not persistent:
+                break
+        kept = [mm for mm in corr['mismatches'] if mm.get('entry') not in RT_ENTRIES or not mm.get('comment') or cls(mm) in persistent]
+        vanished += len(corr['mismatches']) - len(kept)
+        corr['mismatches'] = kept
     v1, undecided = classify(corr, mon_fails)
     violations += v1
     if undecided:
